@@ -15,6 +15,7 @@ EXPLANATION = (
     "close/throw at a yield); for __enter__/__exit__ the reset lies on every path of __exit__ to every exit, exceptional edges included.  No other "
     "write of the variable exists.  Parent lookup at creation is by current_action() only; start_task and "
     "the context-less branch of log_message build a fresh root and never touch the variable."
+    "  The repo's generator wrapper resumes a decorated generator only inside that generator's own context copy (C15.inside), so an action a generator is suspended in never becomes current in its driver."
 )
 RULE = ("obligation = one set/reset pair, one use of the variable, or one parent-lookup site; non-trivial = "
         "at least one CFG path from set to exit enumerated by reachability")
@@ -307,3 +308,9 @@ def rule_parent(chk):
 def run(chk):
     rule_pairs(chk)
     rule_parent(chk)
+    # a generator suspended inside `with action:` must not leave that action current in whoever drives it:
+    # the repo's generator wrapper resumes the generator only inside the generator's own context (C15.inside)
+    from . import c15
+    cvar = c15.rule_ctx(chk)
+    if cvar:
+        c15.rule_inside(chk, cvar)
